@@ -1,8 +1,9 @@
 \* C05 as found (defect F2; with_completion as in the unrepaired code), otherwise as quick: 1 alternative
 \* module / name / property value, completions new{rec1,dflt,dfltL} with{rec2,dflt}
-\* complete_with{rec3,dfltL,ok,err}, 6 clock scripts (forwards, backwards, standing still, no
+\* complete_with{rec3,dfltL,ok,err,errM}, 6 clock scripts (forwards, backwards, standing still, no
 \* reading at start / at completion / at all), both filter verdicts, forms
-\* none/plain/result/guard, operations inside and after the span's frame.
+\* none/plain/setup/result/resultM/guard/newspan, operations inside and after the frame;
+\* complete / complete_with / drop also while the thread is unwinding.
 SPECIFICATION Spec
 CONSTANTS
     Mdls = {"m1"}
@@ -10,16 +11,17 @@ CONSTANTS
     PropVals = {1}
     NewComps = {"rec1", "dflt", "dfltL"}
     WithComps = {"rec2", "dflt"}
-    CwComps = {"rec3", "dfltL", "ok", "err"}
+    CwComps = {"rec3", "dfltL", "ok", "err", "errM"}
     Scripts <- MC_ScriptsThorough
-    Forms = {"none", "plain", "result", "guard"}
+    Forms = {"none", "plain", "setup", "result", "resultM", "guard", "newspan"}
     Frames = {"in", "out"}
+    MaxLen = 0
     F2Bug = TRUE
     Emit = FALSE
 VIEW view
 INVARIANTS TypeOK AtMostOnce ExactlyOnceIffEnabledStarted EnabledIsFilterVerdict
     ReturnValueTruthful ExtentIsStartToEnd CarriesLatestData PanicAddsErrAndLevel
-    RefinesStatement LiveGuardWhole
+    RefinesStatement LiveGuardWhole SetupBracketsSpan
 PROPERTY ProbesAgree
 ACTION_CONSTRAINT EmitReplay
 CHECK_DEADLOCK FALSE
